@@ -1,11 +1,11 @@
 package props
 
 import (
-	"net/http"
 	"context"
 	"encoding/json"
 	"fmt"
 	"net"
+	"net/http"
 	"net/url"
 	"path"
 	"regexp"
